@@ -4,3 +4,12 @@ from vlib.props import glr_props
 def check(run, only=None):
     if only in (None, "B"):
         run.add_bounded(glr_props.run_bounded("C01", run.tier))
+    if only in (None, "P"):
+        from vlib.props import pcommon
+        from vlib.companions import parserfuncs as pf
+        import contracts.gss as cg
+        pcommon.add_proof(run, "C01", cg.GSS_C01, [pf.run_gss],
+                          "GSSNode: the node id is a function of (frontier, state id); for_token returns this very node "
+                          "when it has no look-ahead yet or already this one, otherwise a NEW node that differs in nothing "
+                          "but the token (state, position, frontier, id, input, layout before and after) and holds a copy "
+                          "of the parent links")
